@@ -17,7 +17,7 @@
    where RFC 6979 is named.  Python exceptions are values: Ret v / Raise e / OutOfFuel. *)
 From Coq Require Import ZArith List Znumtheory.
 From PV Require Import Base.Bytes Base.Outcome Gen.GenCurvesC01 Model.Ecdsa Model.Rfc6979 Model.EcdsaInst
-  Spec.EcdsaSpec Spec.Rfc6979Spec Proofs.EcdsaP Proofs.Rfc6979P Proofs.EcdsaInstP Proofs.C01P Proofs.CurvePrimesC01.
+  Spec.EcdsaSpec Spec.Rfc6979Spec Model.EcdsaHist Proofs.EcdsaHistP Proofs.EcdsaP Proofs.Rfc6979P Proofs.EcdsaInstP Proofs.C01P Proofs.CurvePrimesC01.
 Import ListNotations.
 Local Open Scope Z_scope.
 
@@ -255,3 +255,40 @@ Print Assumptions C01_regression_sign_wraps.
 Print Assumptions C01_regression_recover_r_above_p.
 Print Assumptions C01_hypotheses_satisfiable.
 Print Assumptions C01_toy_good_nonce_exists.
+
+(* ---- histories of calls (round c: module-level / object-level state) --------------------------------------
+   The code in /repo keeps no state between calls: every model function above (deterministic_generate_k, verify,
+   sign_with_recid, recover) is a function of its arguments, and the model of a history of calls is the list of their
+   values (run_stateless).  So every theorem above holds after ANY history, in any order of curves / generators /
+   hash functions; the tie to the implementation is the correspondence run and the `history` direct checks, which
+   execute call sequences (incl. arguments colliding under Python's hash(), the same call under different
+   configurations in both orders, fresh objects) in one process and compare every result with the stateless model /
+   an independent reference. *)
+Theorem C01_history_independence : forall (A B : Type) (f : A -> B) (h1 h2 : list A) (c : A) (d : B),
+  last (run_stateless A B f (h1 ++ [c])) d = last (run_stateless A B f (h2 ++ [c])) d.
+Proof. exact stateless_history_independent. Qed.
+
+(* What a memoising implementation must satisfy: a memo `cache[key(args)]` is transparent on EVERY history as soon as
+   the key determines the result ... *)
+Theorem C01_memo_transparent : forall (A B K : Type) (f : A -> B) (key : A -> K) (key_eqb : K -> K -> bool),
+  (forall a b, key_eqb a b = true <-> a = b) -> (forall a b, key a = key b -> f a = f b) ->
+  forall h, memo_run A B K f key key_eqb [] h = run_stateless A B f h.
+Proof. exact memo_transparent. Qed.
+
+(* ... and any two arguments with the same key and different results give a history on which it is wrong *)
+Theorem C01_memo_collision_visible : forall (A B K : Type) (f : A -> B) (key : A -> K) (key_eqb : K -> K -> bool),
+  (forall a b, key_eqb a b = true <-> a = b) ->
+  forall a b, key a = key b -> f a <> f b -> memo_run A B K f key key_eqb [] [a; b] <> run_stateless A B f [a; b].
+Proof. exact memo_collision_visible. Qed.
+
+(* CPython's int hash (residue modulo 2^61 - 1) is such a colliding key for every order above 2^62: two hash values
+   below n with the same Python hash and different residues modulo n (hence, by C01_nonce_input_injective, different
+   HMAC inputs of the nonce) *)
+Theorem C01_python_hash_collides : forall n : Z, 2 ^ 62 < n ->
+  exists z1 z2 : Z, 0 < z1 < n /\ 0 < z2 < n /\ z1 <> z2 /\ py_int_hash z1 = py_int_hash z2 /\ z1 mod n <> z2 mod n.
+Proof. exact py_hash_collision. Qed.
+
+Print Assumptions C01_history_independence.
+Print Assumptions C01_memo_transparent.
+Print Assumptions C01_memo_collision_visible.
+Print Assumptions C01_python_hash_collides.
